@@ -431,6 +431,14 @@ def np_call(ev, name, args, kwargs, node):
         if isinstance(x, Lst) and x.pappends and not x.items and hasattr(x, "comp"):
             return as_v(ev, x)
         v = as_v(ev, x)
+        dt = kwargs.get("dtype", arg(1) if name in ("asarray", "array", "asanyarray") and len(A) > 1 else None)
+        if dt is not None and not (isinstance(dt, Const) and dt.value is None):
+            from .evalr import ExtV
+            last = dt.dotted.split(".")[-1] if isinstance(dt, ExtV) else (dt.value if isinstance(dt, Const) and isinstance(dt.value, str) else None)
+            if last not in ("float", "float64", "double", "longdouble", "f8", "d"):
+                # a cast to an integer / unknown dtype may change values (truncation): not the same value any more
+                kind = "int" if last in ("int", "int64", "intp", "int32", "i8") else "other"
+                return App("fresh", (v,), [("dtype", Const(kind))])
         if isinstance(v, Tup) and not isinstance(v, Vec) and v.items and all(to_poly(i) is not None and not isinstance(i, Star) for i in v.items) \
                 and isinstance(x, (Lst, Tup)):
             return Vec(v.items)
@@ -441,6 +449,10 @@ def np_call(ev, name, args, kwargs, node):
         v = as_v(ev, arg(0, "a"))
         return App("fresh", (v,)) if storage_root(v) is not None else v
     if name == "sort":
+        ax = kwargs.get("axis", arg(1) if len(A) > 1 else None)
+        if isinstance(ax, Const) and ax.value is None:
+            # axis=None: the array is flattened before sorting
+            return mk_app("sort", [App("flatten", (as_v(ev, arg(0, "a")),))])
         return mk_app("sort", [as_v(ev, arg(0, "a"))])
     if name == "searchsorted":
         a, v = as_v(ev, arg(0, "a")), as_v(ev, arg(1, "v"))
@@ -686,6 +698,25 @@ def call_ext(ev, dotted, args, kwargs, node):
             o = Obj(src.cls, dict(src.attrs))
             o.attrs.update(kwargs)
             return o
+    if dotted.startswith("operator.") or dotted.startswith("_operator."):
+        fn = dotted.split(".", 1)[1].strip("_")
+        cmp_ops = {"lt": "Lt", "le": "LtE", "gt": "Gt", "ge": "GtE", "eq": "Eq", "ne": "NotEq", "is": "Is", "is_not": "IsNot", "contains": None}
+        bin_ops = {"add": "Add", "sub": "Sub", "mul": "Mult", "truediv": "Div", "floordiv": "FloorDiv", "mod": "Mod", "pow": "Pow",
+                   "and": "BitAnd", "or": "BitOr", "xor": "BitXor", "matmul": "MatMult"}
+        if fn in cmp_ops and cmp_ops[fn] and len(args) == 2:
+            return ev.compare(cmp_ops[fn], args[0], args[1], node)
+        if fn == "contains" and len(args) == 2:
+            return contains(ev, args[0], args[1], node)
+        if fn in bin_ops and len(args) == 2:
+            return ev.binop(bin_ops[fn], args[0], args[1], node)
+        if fn == "neg" and len(args) == 1:
+            return neg(as_v(ev, args[0]))
+        if fn == "not" and len(args) == 1:
+            return negate(ev.truth(args[0]))
+        if fn == "getitem" and len(args) == 2:
+            return getitem(ev, args[0], args[1], node)
+        if fn == "truth" and len(args) == 1:
+            return ev.truth(args[0])
     if dotted in ("copy.copy", "copy.deepcopy") and len(args) >= 1:
         from .evalr import Obj
         src = args[0]
